@@ -92,6 +92,7 @@ def run(prop, tier, seed, replay=None):
     if r.violated:
         raise core.ToolError("specification-level check failed: MC_Matrix violates %s\n%s" % (r.violated, r.out[-1500:]))
     core.require_coverage(r, MC_ACTIONS, "Matrix")
+    core.liveness("MC_Matrix", "FairSpec", dict(consts, NMAX=3), "RunTerminates", "mc_matrix_live", wd, overrides={"TOLS": "MCTols"})
     # 2. exactness scope, replayed
     rnd = random.Random(seed)
     path = os.path.join(wd, "chol.ndjson")
